@@ -110,6 +110,10 @@ def run_case(desc, ctx):
         if not ok or pj.returncode != 0:
             res.count('setup_build_failed')
             return res
+        if desc['seed'] % 4 == 1:
+            ctx.write(outname + '.skf', os.urandom(60000))                    # an older, larger file of that name exists
+            if variant == 'rel':
+                res.count('output_file_existed')
         nested = desc['nested'] and len(pf) > 2
         if nested:
             cut = rng.randint(2, len(pf) - 1) if len(pf) > 2 else 2
